@@ -20,9 +20,35 @@ class Case:
 
     def module(self):
         body = (self.text + "".join(self.td.extra_items) + S.emit_mk(self.td, self.vals) + S.emit_fp(self.td) +
-                self.glue +
+                decoys(self.td) + self.glue +
                 "pub fn run() {\n    %sguarded(\"%s\", || {\n%s\n    });\n}\n" % (RT, self.cid, self.drive))
         return H.module(self.cid, body)
+
+
+DECOY_FNS = [
+    ("clone", "(&self) -> Self"), ("clone_from", "(&mut self, source: &Self)"), ("eq", "(&self, other: &Self) -> bool"),
+    ("ne", "(&self, other: &Self) -> bool"), ("cmp", "(&self, other: &Self) -> ::core::cmp::Ordering"),
+    ("partial_cmp", "(&self, other: &Self) -> ::core::option::Option<::core::cmp::Ordering>"),
+    ("lt", "(&self, other: &Self) -> bool"), ("le", "(&self, other: &Self) -> bool"), ("gt", "(&self, other: &Self) -> bool"),
+    ("ge", "(&self, other: &Self) -> bool"), ("hash", "<DecoyH__: ::core::hash::Hasher>(&self, state: &mut DecoyH__)"),
+    ("fmt", "(&self, f: &mut ::core::fmt::Formatter<'_>) -> ::core::fmt::Result"), ("default", "() -> Self"),
+    ("into", "<DecoyX__>(self) -> DecoyX__"),
+]
+
+
+def decoys(td):
+    """inherent associated functions of the derived type itself, named like the trait methods its impls may want to call
+    on `self` / `Self` and with compatible signatures: anything but a fully qualified call ends up here and panics"""
+    if td.kind == "enum" and any(v.name in dict(DECOY_FNS) for v in td.variants):
+        return ""
+    self_ty = td.name + ("<" + ", ".join(p["name"] for p in td.params) + ">" if td.params else "")
+    where = (" where " + ", ".join(td.where)) if td.where else ""
+    fns = "".join("    pub fn %s%s { panic!(\"DECOY: inherent `%s` of the derived type was called\") }\n" % (n, sig, n)
+                  for n, sig in DECOY_FNS)
+    from . import model as M
+    hp = M.header_params(td)
+    return ("#[allow(dead_code, unused_variables, clippy::all)]\nimpl%s %s%s {\n%s}\n"
+            % ("<" + ", ".join(hp) + ">" if hp else "", self_ty, where, fns))
 
 
 def programs(cases, nbins=None):
